@@ -156,6 +156,49 @@ fn psf1_lengths(cs: usize, wide: bool) -> Vec<usize> {
     v
 }
 
+
+/// PSF2 headers that SOLVE the size equation of `load_psf2`: `i64(length as i32) * i64(charsize as i32) + headersize == file length`
+/// for extreme `length` / `charsize` (sign bit set, `i32::MAX`, powers of two) by choosing `headersize`, with `height` / `width`
+/// chosen so that `charsize == height * ((width + 7) / 8)` holds as well.  Each solved header then violates AT MOST ONE of the
+/// four guards (`length < 0`, `charsize <= 0`, the size equation by +-1, the glyph shape), so every guard is the only thing
+/// standing between the header and `&data[headersize..]` / the glyph loop at least once.
+pub fn psf2_solved_cases(thorough: bool) -> Vec<String> {
+    let mut cs = Vec::new();
+    let lens: [u32; 13] = [0, 1, 2, 255, 256, 512, 0x7FFF_FFFF, 0x8000_0000, 0x8000_0001, 0xC000_0000, 0xFFFF_FF00, 0xFFFF_FFFE, 0xFFFF_FFFF];
+    let sizes: [u32; 15] = [1, 2, 8, 16, 32, 255, 256, 0xFFFF, 0x1_0000, 0x4000_0000, 0x7FFF_FFFF, 0, 0x8000_0000, 0xFFFF_FFF0, 0xFFFF_FFFF];
+    let files: [usize; 5] = [32, 33, 48, 64, 32 + 4096];
+    for &n in &files {
+        for &l in &lens {
+            for &c in &sizes {
+                if n > 64 && !(thorough || (matches!(l, 256 | 0x8000_0000 | 0xFFFF_FFFF) && matches!(c, 1 | 16 | 0xFFFF_FFFF))) {
+                    continue;
+                }
+                let hs0 = n as i64 - i64::from(l as i32) * i64::from(c as i32);
+                // glyph shapes with height * ((width + 7) / 8) == charsize (u64 arithmetic), and one that is off
+                let mut shapes: Vec<(u32, u32, bool)> = vec![(c, 8, true), (c, 1, true), (c, 9, c == 0)];
+                if let Some(w) = (c as u64 * 8).checked_sub(7).filter(|w| *w <= u32::MAX as u64) {
+                    shapes.push((1, w as u32, true));
+                }
+                if c % 2 == 0 && c > 0 {
+                    shapes.push((c / 2, 16, true));
+                }
+                for (h, w, fits) in shapes {
+                    for dh in [0i64, -1, 1] {
+                        if dh != 0 && !(fits && w == 8) {
+                            continue; // the equation is violated alone only on a header whose shape is right
+                        }
+                        let hs = hs0 + dh;
+                        if (0..=u32::MAX as i64).contains(&hs) {
+                            cs.push(case("@font", &psf2([PSF2_MAGIC, 0, hs as u32, 0, l, c, h, w], n - 32, 0x5A)));
+                        }
+                    }
+                }
+            }
+        }
+    }
+    cs
+}
+
 /// font cases; `dcs`: also the DCS route for a subset
 pub fn font_cases(rng: &mut Rng, thorough: bool) -> Vec<String> {
     let mut cs: Vec<String> = Vec::new();
@@ -249,6 +292,9 @@ pub fn font_cases(rng: &mut Rng, thorough: bool) -> Vec<String> {
             }
         }
     }
+    // --- PSF2 headers whose fields JOINTLY satisfy the size equation at the extremes (solver)
+    let solved = psf2_solved_cases(thorough);
+    cs.extend(solved.iter().cloned());
     // --- raw fonts: every length k*256 and k*256 +- 1, k = 0..=33; with and without a sniffed magic in front
     for kk in 0..=33usize {
         for l in [(kk * 256).saturating_sub(1), kk * 256, kk * 256 + 1] {
@@ -296,6 +342,9 @@ pub fn font_cases(rng: &mut Rng, thorough: bool) -> Vec<String> {
         cs.push(case(&format!("@fontdcs.{}", slot), &psf2(bases[0].0, 8, 1)));
         cs.push(case(&format!("@fontdcs.{}", slot), &psf2(bases[0].0, 7, 1)));
         cs.push(case(&format!("@fontdcs.{}", slot), &psf2([PSF2_MAGIC, 0, 32, 0, 0x7FFF_FFFF, 16, 16, 8], 0, 1)));
+        // solved size equations with a negative length (see `psf2_solved_cases`)
+        cs.push(case(&format!("@fontdcs.{}", slot), &psf2([PSF2_MAGIC, 0, 48, 0, 0xFFFF_FFFF, 16, 16, 8], 0, 1)));
+        cs.push(case(&format!("@fontdcs.{}", slot), &psf2([PSF2_MAGIC, 0, 0x8000_0028, 0, 0x8000_0000, 1, 1, 8], 8, 1)));
         cs.push(case(&format!("@fontdcs.{}", slot), &vec![0x22u8; 2048]));
         cs.push(case(&format!("@fontdcs.{}", slot), &vec![0x22u8; 2047]));
         cs.push(case(&format!("@fontdcs.{}", slot), &[]));
